@@ -189,6 +189,7 @@ _tok = re.compile(r'\s*(?:(-?\d+)(?:%[A-Za-z]+)?|("(?:[^"]|"")*")|([A-Za-z_][A-Z
 
 
 def _parse(s):
+    s = re.sub(r'%[A-Za-z_]+', '', s)     # scope delimiters such as %Z, %nat, %N (also after a parenthesis: (-5)%Z)
     toks = []
     for m in _tok.finditer(s):
         if m.group(1) is not None: toks.append(('n', int(m.group(1))))
